@@ -163,8 +163,10 @@ func UnixFSDirectory(lsys linking.LinkSystem, targetSize int, opts ...Option) (D
 				if err != nil {
 					return nil, err
 				}
-				children = append(children, child)
 				curSize += int(child.TSize)
+				// one entry per generated name: hand the directory back instead of
+				// carrying on and giving a later file the same name
+				return &child, nil
 			default: // 4 in 6 chance of making a new file
 				var size int
 				for size == 0 { // don't make empty files
